@@ -888,6 +888,11 @@ Fixpoint ud_lex (fuel : nat) (cfg : dcfg) (s : bytes) : list ud_tok :=
               end
   end.
 
+(* the byte a %uHHHH escape stands for: the low byte of an overlong form, else the best-fit mapping *)
+Definition ud_u_byte (cfg : dcfg) (h1 h2 h3 h4 : N) : N :=
+  if ud_x2c h1 h2 =? 0 then ud_x2c h3 h4
+  else ud_bestfit_find t_bestfit_1252 (ud_x2c h1 h2) (ud_x2c h3 h4) (d_replacement cfg).
+
 (* the byte a malformed escape contributes *)
 Definition ud_bad_out (cfg : dcfg) (processed : option N) : option N :=
   match ud_handling_of cfg with
@@ -904,9 +909,9 @@ Definition ud_tok_out (cfg : dcfg) (t : ud_tok) : option N :=
   | UtPlus => Some (if d_plusspace cfg then 32 else ud_PLUS)
   | UtRawNul => Some 0
   | UtPct a b => Some (ud_x2c a b)
-  | UtPctU h1 h2 h3 h4 => Some (snd (ud_decode_u cfg 0 h1 h2 h3 h4))
+  | UtPctU h1 h2 h3 h4 => Some (ud_u_byte cfg h1 h2 h3 h4)
   | UtBadHex a b => ud_bad_out cfg (Some (ud_x2c a b))
-  | UtBadU h1 h2 h3 h4 => ud_bad_out cfg (Some (snd (ud_decode_u cfg 0 h1 h2 h3 h4)))
+  | UtBadU h1 h2 h3 h4 => ud_bad_out cfg (Some (ud_u_byte cfg h1 h2 h3 h4))
   | UtBadUShort | UtBadShort => ud_bad_out cfg None
   end.
 
@@ -974,3 +979,164 @@ Fixpoint ud_live (cfg : dcfg) (ts : list ud_tok) : list ud_tok :=
   | [] => []
   | t :: ts => if ud_tok_stops cfg t then [t] else t :: ud_live cfg ts
   end.
+
+Lemma ud_decode_u_flags cfg fl a b c d :
+  ud_decode_u cfg fl a b c d =
+  (N.lor fl (N.lor (ud_bflag (ud_x2c a b =? 0) c_HTP_URLEN_OVERLONG_U)
+                   (ud_bflag (negb (ud_x2c a b =? 0) && (ud_x2c a b =? 255) && (ud_x2c c d <=? 239)) c_HTP_URLEN_HALF_FULL_RANGE)),
+   ud_u_byte cfg a b c d).
+Proof.
+  unfold ud_decode_u, ud_u_byte, ud_bflag. destruct (ud_x2c a b =? 0); cbn [negb andb snd].
+  - rewrite N.lor_0_r. reflexivity.
+  - destruct ((ud_x2c a b =? 255) && (ud_x2c c d <=? 239)); cbn [snd]; rewrite ?N.lor_0_l, ?N.lor_0_r; reflexivity.
+Qed.
+
+Ltac ud_tok_unfold :=
+  unfold ud_tok_flags, ud_tok_status, ud_tok_stops, ud_tok_out, ud_tok_encoded_nul, ud_tok_overlong, ud_tok_halffull,
+         ud_tok_u_digits, ud_tok_is_bad, ud_tok_is_u, ud_tok_is_escape, ud_bad_out, ud_tok_span, ud_mark_invalid.
+
+Lemma ud_loop_step cfg len fuel fl st out rest t :
+  ud_handling_of cfg <> UdNoCase ->
+  ud_classify cfg rest = Some t ->
+  ud_loop (S fuel) cfg len fl st out rest =
+  (let fl' := N.lor fl (ud_tok_flags cfg t) in
+   let st' := ud_tok_status cfg st t in
+   if ud_tok_stops cfg t then Some (rev out, fl', st')
+   else ud_loop fuel cfg len fl' st' (match ud_tok_out cfg t with Some b => b :: out | None => out end)
+                (skipn (ud_tok_span cfg t) rest)).
+Proof.
+  intros Hh Hc. destruct rest as [|c r1]; [discriminate|].
+  cbn [ud_classify] in Hc. cbn [ud_loop]. cbn zeta.
+  destruct (c =? ud_PCT) eqn:Ec.
+  - assert (Hlor : forall x y, N.lor (N.lor fl x) y = N.lor fl (N.lor x y)) by (intros; symmetry; apply N.lor_assoc).
+    unfold ud_pct. destruct (ud_handling_of cfg) eqn:Eh; [| | |contradiction].
+    all: destruct r1 as [|h1 [|h2 r3]];
+      [| |destruct ((d_u_decode cfg) && ((h1 =? ud_LC_U) || (h1 =? ud_UC_U)));
+          [destruct r3 as [|h3 [|h4 [|h5 r6]]]; [| | |destruct (c_isxdigit h2 && c_isxdigit h3 && c_isxdigit h4 && c_isxdigit h5)]
+          |destruct (c_isxdigit h1 && c_isxdigit h2)]].
+    all: inversion Hc; subst t; clear Hc.
+    all: repeat ud_tok_unfold; rewrite ?Eh; rewrite ?ud_decode_u_flags;
+      change (ud_PCT =? 0) with false; cbn [ud_bflag andb negb orb skipn fst snd].
+    all: repeat match goal with
+             | |- context [?b =? 0] => destruct (b =? 0) eqn:?
+             end;
+      cbn [ud_bflag andb negb orb skipn fst snd];
+      try destruct (d_nul_enc_term cfg);
+      rewrite ?N.lor_0_r, ?N.lor_0_l; rewrite <- ?N.lor_assoc; rewrite ?N.lor_0_r, ?N.lor_0_l; reflexivity.
+  - destruct (c =? ud_PLUS) eqn:Ep.
+    + inversion Hc; subst t. ud_tok_unfold. cbn. rewrite N.lor_0_r.
+      apply N.eqb_eq in Ep. subst c. reflexivity.
+    + destruct (c =? 0) eqn:Ez; inversion Hc; subst t; ud_tok_unfold; cbn.
+      * apply N.eqb_eq in Ez. subst c. destruct (d_nul_raw_term cfg); reflexivity.
+      * rewrite N.lor_0_r. reflexivity.
+Qed.
+
+Lemma ud_classify_some cfg c r : exists t, ud_classify cfg (c :: r) = Some t.
+Proof.
+  cbn [ud_classify]. destruct (c =? ud_PCT).
+  - destruct r as [|h1 [|h2 r3]]; try (eexists; reflexivity).
+    destruct ((d_u_decode cfg) && ((h1 =? ud_LC_U) || (h1 =? ud_UC_U))).
+    + destruct r3 as [|h3 [|h4 [|h5 r6]]]; try (eexists; reflexivity).
+      destruct (c_isxdigit h2 && c_isxdigit h3 && c_isxdigit h4 && c_isxdigit h5); eexists; reflexivity.
+    + destruct (c_isxdigit h1 && c_isxdigit h2); eexists; reflexivity.
+  - destruct (c =? ud_PLUS); [eexists; reflexivity|]. destruct (c =? 0); eexists; reflexivity.
+Qed.
+
+Lemma ud_tok_span_pos cfg t : (1 <= ud_tok_span cfg t)%nat.
+Proof. destruct t; cbn [ud_tok_span]; try lia; destruct (ud_handling_of cfg); lia. Qed.
+
+Lemma ud_loop_eval cfg len : ud_handling_of cfg <> UdNoCase -> forall fuel fl st out rest,
+  (length rest < fuel)%nat ->
+  ud_loop fuel cfg len fl st out rest = Some (ud_eval cfg fl st out (ud_lex fuel cfg rest)).
+Proof.
+  intros Hh. induction fuel as [|fuel IH]; intros fl st out rest Hf; [lia|].
+  destruct rest as [|c r1]; [reflexivity|].
+  destruct (ud_classify_some cfg c r1) as [t Ht].
+  rewrite (ud_loop_step cfg len fuel fl st out (c :: r1) t Hh Ht). cbn zeta.
+  cbn [ud_lex]. rewrite Ht. cbn [ud_eval].
+  destruct (ud_tok_stops cfg t); [reflexivity|].
+  apply IH. rewrite skipn_length. pose proof (ud_tok_span_pos cfg t). cbn [length] in *. lia.
+Qed.
+
+(* all tokens of a string *)
+Definition ud_tokens (cfg : dcfg) (s : bytes) : list ud_tok := ud_lex (S (length s)) cfg s.
+
+Theorem ud_token_spec cfg fl st s :
+  ud_handling_of cfg <> UdNoCase ->
+  ud_urldecode_from cfg fl st s = ud_eval cfg fl st [] (ud_tokens cfg s).
+Proof.
+  intros Hh. pose proof (ud_from_loop cfg fl st s) as E.
+  rewrite (ud_loop_eval cfg (length s) Hh) in E by lia. inversion E. reflexivity.
+Qed.
+
+(* ---- each flag is raised exactly when a token of its kind is interpreted ---- *)
+Definition ud_has (fl f : N) : bool := N.testbit fl (N.log2 f).
+
+Lemma ud_eval_flags cfg : forall ts fl st out,
+  snd (fst (ud_eval cfg fl st out ts)) = fold_left (fun f t => N.lor f (ud_tok_flags cfg t)) (ud_live cfg ts) fl.
+Proof.
+  induction ts as [|t ts IH]; intros fl st out; [reflexivity|].
+  cbn [ud_eval ud_live]. destruct (ud_tok_stops cfg t); [reflexivity|]. cbn [fold_left]. apply IH.
+Qed.
+
+Lemma ud_fold_has cfg f : forall l fl,
+  ud_has (fold_left (fun g t => N.lor g (ud_tok_flags cfg t)) l fl) f
+  = ud_has fl f || existsb (fun t => ud_has (ud_tok_flags cfg t) f) l.
+Proof.
+  induction l as [|t l IH]; intros fl; [cbn; rewrite orb_false_r; reflexivity|].
+  cbn [fold_left existsb]. rewrite IH. unfold ud_has. rewrite N.lor_spec, orb_assoc. reflexivity.
+Qed.
+
+Lemma ud_has_bflag b g f : ud_has (ud_bflag b g) f = b && ud_has g f.
+Proof. destruct b; [reflexivity|]. unfold ud_has, ud_bflag. rewrite N.bits_0. reflexivity. Qed.
+
+Lemma ud_tok_flags_has cfg t f :
+  ud_has (ud_tok_flags cfg t) f =
+  (ud_tok_is_bad t && ud_has c_HTP_URLEN_INVALID_ENCODING f)
+  || ((ud_tok_overlong cfg t && ud_has c_HTP_URLEN_OVERLONG_U f)
+  || ((ud_tok_halffull cfg t && ud_has c_HTP_URLEN_HALF_FULL_RANGE f)
+  || ((ud_tok_encoded_nul cfg t && ud_has c_HTP_URLEN_ENCODED_NUL f)
+  || ((match t with UtRawNul => true | _ => false end) && ud_has c_HTP_URLEN_RAW_NUL f)))).
+Proof.
+  unfold ud_tok_flags. unfold ud_has at 1. rewrite !N.lor_spec. fold (ud_has (ud_bflag (ud_tok_is_bad t) c_HTP_URLEN_INVALID_ENCODING) f).
+  change (N.testbit ?x (N.log2 f)) with (ud_has x f). rewrite !ud_has_bflag. reflexivity.
+Qed.
+
+Definition ud_out_flags (cfg : dcfg) (s : bytes) : N := snd (fst (ud_urldecode_ex cfg s)).
+Definition ud_live_tokens (cfg : dcfg) (s : bytes) : list ud_tok := ud_live cfg (ud_tokens cfg s).
+
+Lemma ud_out_flags_has cfg s f : ud_handling_of cfg <> UdNoCase ->
+  ud_has (ud_out_flags cfg s) f = existsb (fun t => ud_has (ud_tok_flags cfg t) f) (ud_live_tokens cfg s).
+Proof.
+  intros Hh. unfold ud_out_flags, ud_urldecode_ex. rewrite (ud_token_spec cfg 0 0%Z s Hh).
+  rewrite ud_eval_flags, ud_fold_has. reflexivity.
+Qed.
+
+Lemma ud_existsb_ext_in {A} (f g : A -> bool) l : (forall x, In x l -> f x = g x) -> existsb f l = existsb g l.
+Proof.
+  induction l as [|a l IH]; intros H; [reflexivity|]. cbn. rewrite (H a (or_introl eq_refl)), IH; [reflexivity|].
+  intros x Hx. apply H. right. exact Hx.
+Qed.
+
+Ltac ud_flag_tac :=
+  intros cfg s Hh; rewrite (ud_out_flags_has cfg s _ Hh); apply ud_existsb_ext_in; intros t _;
+  rewrite ud_tok_flags_has;
+  repeat match goal with |- context [ud_has ?a ?b] => let v := eval vm_compute in (ud_has a b) in change (ud_has a b) with v end;
+  rewrite ?andb_false_r, ?andb_true_r, ?orb_false_r, ?orb_false_l; reflexivity.
+
+Theorem ud_flag_invalid_iff : forall cfg s, ud_handling_of cfg <> UdNoCase ->
+  ud_has (ud_out_flags cfg s) c_HTP_URLEN_INVALID_ENCODING = existsb ud_tok_is_bad (ud_live_tokens cfg s).
+Proof. ud_flag_tac. Qed.
+Theorem ud_flag_overlong_iff : forall cfg s, ud_handling_of cfg <> UdNoCase ->
+  ud_has (ud_out_flags cfg s) c_HTP_URLEN_OVERLONG_U = existsb (ud_tok_overlong cfg) (ud_live_tokens cfg s).
+Proof. ud_flag_tac. Qed.
+Theorem ud_flag_halffull_iff : forall cfg s, ud_handling_of cfg <> UdNoCase ->
+  ud_has (ud_out_flags cfg s) c_HTP_URLEN_HALF_FULL_RANGE = existsb (ud_tok_halffull cfg) (ud_live_tokens cfg s).
+Proof. ud_flag_tac. Qed.
+Theorem ud_flag_encoded_nul_iff : forall cfg s, ud_handling_of cfg <> UdNoCase ->
+  ud_has (ud_out_flags cfg s) c_HTP_URLEN_ENCODED_NUL = existsb (ud_tok_encoded_nul cfg) (ud_live_tokens cfg s).
+Proof. ud_flag_tac. Qed.
+Theorem ud_flag_raw_nul_iff : forall cfg s, ud_handling_of cfg <> UdNoCase ->
+  ud_has (ud_out_flags cfg s) c_HTP_URLEN_RAW_NUL
+  = existsb (fun t => match t with UtRawNul => true | _ => false end) (ud_live_tokens cfg s).
+Proof. ud_flag_tac. Qed.
